@@ -72,8 +72,17 @@ def atom(fn, c):
     if t == "arm_not":
         return ("arm_not", hir.place(c["scrut"]), hir.pat_variant(c["pat"]), c)
     if t == "try":
-        return ("try", hir.place(c["e"]), True, c)
+        e = hir.peel(c["e"])
+        if hir.is_call(e) and (hir.callee_name(e) or "") == "branch" and hir.call_args(e):
+            e = hir.call_args(e)[0]
+        return ("try", hir.place(e), True, c)
     return (t,)
+
+
+def _strip_ids(s):
+    import re
+
+    return re.sub(r"#\d+", "", s)
 
 
 def atoms_at(fn, node):
@@ -92,7 +101,7 @@ def has_eq_gate(atoms, side_endswith, const_endswith, value=True):
     for a in atoms:
         if a[0] == "eq" and a[3] == value:
             sides = [a[1], a[2]]
-            s = [x for x in sides if isinstance(x, str)]
+            s = [_strip_ids(x) for x in sides if isinstance(x, str)]
             if any(x.endswith(side_endswith) for x in s) and any(x.endswith(const_endswith) for x in s):
                 return True
     return False
